@@ -592,6 +592,9 @@ func main() {
 	run.SetExhaustive(false)
 	var sampled sync.Once
 	vx.Parallel(len(layouts), runtime.NumCPU(), func(k int) {
+		if run.Enough() {
+			return
+		}
 		l := layouts[k]
 		withWeb := k%7 == 0 || k >= nEnum
 		var vs []viol
